@@ -1,12 +1,13 @@
 """Sidecar contracts for the in-memory cache (C19). Map invariant: every cached entry equals the wrapped dataset's sample.
 Concurrency by rely/guarantee: the shared dict's operations are atomic, other processes interfere between them."""
 from pyvc.values import *  # noqa
-from pyvc.absobj import SHAREDMAP, DATASET, CALLABLE
+from pyvc.absobj import SHAREDMAP, DATASET_NULLABLE as DATASET, CALLABLE
 
 F = "kappadata/caching/shared_dict_dataset.py"
 FC = "kappadata/caching/cached_dataset.py"
 SELF = {"shared_dict": SHAREDMAP, "dataset": DATASET, "transform": TOpt(CALLABLE)}
-GHOST = {"g_present": (TSeq(BOOL, mutable=False), None), "g_val": (TSeq(VAL, mutable=False), None), "g_rely": (INT, None),
+GHOST = {"g_present": (TSeq(BOOL, mutable=False), None), "g_val": (TSeq(TOpt(VAL), mutable=False), None), "g_rely": (INT, None),
+         "g_base_reads": (INT, "0"),
          "g_ncalls": (INT, "0"), "g_called_arg": (VAL, None)}
 DEFS = {"BaseItem": (("k",), "Item(self.dataset, k)")}
 INV = "forall(lambda k: implies(k >= 0 and g_present[k], g_val[k] == Item(self.dataset, k)))"
@@ -29,6 +30,7 @@ SEQ = getitem_contract(0, "sequential")
 SEQ["ensures"] += [
     # in a sequential history the base dataset is read iff idx was not cached (hence at most once between clears)
     "forall(lambda k: implies(k >= 0 and k != idx, g_present[k] == old(g_present)[k]))",
+    "g_base_reads == b2i(not old(g_present)[idx])",
 ]
 CONC = getitem_contract(1, "concurrent-readers")
 CONC_CLEAR = getitem_contract(2, "concurrent-readers-and-clear")
@@ -45,4 +47,10 @@ SEQ["returns"] = VAL
 SEQ["primary"] = True
 SEQ_KEY = f"{F}::SharedDictDataset._cached_getitem"
 
-CONTRACTS = [SEQ, CONC, CONC_CLEAR, DISPOSE, GETITEM]
+INIT = dict(
+    target=f"{FC}::CachedDataset.__init__", self={}, params={"dataset": DATASET, "transform": TOpt(CALLABLE)},
+    # both attributes always exist on the instance (an unset attribute would fall through __getattr__ to the wrapped dataset)
+    ensures=["HasField(self, 'dataset') and HasField(self, 'transform')", "self.transform == transform", "self.dataset == dataset"],
+)
+
+CONTRACTS = [SEQ, CONC, CONC_CLEAR, DISPOSE, GETITEM, INIT]
